@@ -12,24 +12,54 @@ def validPrefix (c : DecCase) : List Bytes :=
       if fp.2.length > limit then [] else
       if fp.1 = 1 ∧ c.cfg.enc.isNone then [] else
       match payloadMsg c.tab fp with
-      | some m => if m.head? = some 255 then [] else m :: go r
+      | some raw => (match (recvOfCase c).de raw with | some m => m :: go r | none => [])
       | none => []
   go frs
+
+/-- the gRPC code a refused frame must be reported with -/
+def badCode : Spec.Framing.Bad → Nat
+  | .tooLarge => 11
+  | _ => 13
+
+def codeOfTok (t : String) : Option Nat := (((t.drop 1).toString.splitOn ":").head?).bind String.toNat?
+
+/-- What the reference batch decoder (`Spec.Framing.batch`, over the case's oracle tables) demands
+of a body that simply ends (data chunks and `Pending`s only, no trailers, no body error), for a
+request or a 200 response polled past its end: all valid messages, then — if the input stops at
+a refused frame or inside a frame the receiver holds bytes of — an error with the right code;
+`none` = the reference decoder demands no error (or the case is not of that shape). -/
+def demanded (c : DecCase) : Option (List Bytes × Nat) :=
+  let okDir := match c.cfg.dir with | .request => true | .response h => h == 200 | .empty => false
+  if !(plainEvs c.evs && okDir) then none else
+  let p := recvOfCase c
+  let data := dataOf c.evs
+  match Spec.Framing.batch p data with
+  | (ms, .bad b) => some (ms, badCode b)
+  | (ms, .incomplete) => if (Spec.Framing.held p data).isEmpty then none else some (ms, 13)
+  | (_, .clean) => none
 
 def afterFirstErr : List String → List String
   | [] => []
   | t :: r => if tokKind t = 'e' then r else afterFirstErr r
 
 /-- C07 verdict: never panics/hangs; every message yielded is a correctly framed message of the
-input, in order (a prefix of the valid frames); the first error is final. -/
+input, in order (a prefix of the valid frames); the first error is final; a body that just ends
+after a refused frame, or inside a frame, yields every valid message and then an error. -/
 def handle (case obs : List String) : String × String :=
-  match model case, parseDecCase case with
-  | some m, some c =>
+  match parseDecCase case with
+  | some c =>
+    let m := runDec c
     let msgs := obsMsgs obs
     let vp := validPrefix c
-    (m, verdict [("no-panic-no-hang", !obs.any isBad),
+    (m, verdict [("no-panic-no-hang", !obs.any isBad), ("no-lost-wakeup", noLostWakeup obs),
                  ("every-poll-completes", (obs.filter (fun t => tokKind t ≠ 'a')).length == c.npolls),
                  ("messages-are-valid-prefix-of-input", msgs.length ≤ vp.length && vp.take msgs.length == msgs),
-                 ("first-error-final", ((afterFirstErr obs).filter (fun t => tokKind t ≠ 'a')).all (fun t => t = "n"))])
-  | _, _ => bad
+                 ("first-error-final", ((afterFirstErr obs).filter (fun t => tokKind t ≠ 'a')).all (fun t => t = "n")),
+                 ("all-valid-messages-before-a-malformed-frame",
+                    match demanded c with | some (ms, _) => msgs == ms | none => true),
+                 ("malformed-or-truncated-frame-yields-an-error-not-a-clean-end",
+                    match demanded c with
+                    | some (_, code) => ((obs.find? (fun t => tokKind t = 'e')).bind codeOfTok) == some code
+                    | none => true)])
+  | none => bad
 end DriverC07
